@@ -636,6 +636,12 @@ func (a *Arith) axioms(form Lin, seen map[string]bool) []Ineq {
 				if fa, ok := ld.X.(*ssa.FieldAddr); ok && inv.fields[fieldID{derefTypeString(fa.X.Type()), fa.Field}] {
 					out = append(out, Ineq{linAtom(k).scale(-1), 0})
 				}
+				if al, ok := ld.X.(*ssa.Alloc); ok && inv.cells[al] {
+					out = append(out, Ineq{linAtom(k).scale(-1), 0})
+				}
+				if fv, ok := ld.X.(*ssa.FreeVar); ok && inv.cellOf[fv] != nil && inv.cells[inv.cellOf[fv]] {
+					out = append(out, Ineq{linAtom(k).scale(-1), 0})
+				}
 			}
 		}
 		switch x := v.(type) {
@@ -1335,14 +1341,21 @@ func (c *FnCtx) bufVersion(recv ssa.Value, at ssa.Instruction) string {
 type nonnegInv struct {
 	fields map[fieldID]bool
 	params map[*ssa.Parameter]bool
+	cells  map[*ssa.Alloc]bool        // integer locals captured by closures (memory cells shared with them)
+	cellOf map[*ssa.FreeVar]*ssa.Alloc // a closure's free variable -> the captured cell
 }
 
 func (m *Model) NonnegInv() *nonnegInv {
 	if m.inv != nil && m.invDone {
 		return m.inv
 	}
-	inv := &nonnegInv{fields: map[fieldID]bool{}, params: map[*ssa.Parameter]bool{}}
+	inv := &nonnegInv{fields: map[fieldID]bool{}, params: map[*ssa.Parameter]bool{}, cells: map[*ssa.Alloc]bool{}, cellOf: map[*ssa.FreeVar]*ssa.Alloc{}}
 	m.inv = inv
+	type cellStore struct {
+		st   *ssa.Store
+		cell *ssa.Alloc
+	}
+	var cellStores []cellStore
 	type storeSite struct {
 		st *ssa.Store
 		id fieldID
@@ -1364,7 +1377,35 @@ func (m *Model) NonnegInv() *nonnegInv {
 	for _, fn := range fns {
 		for _, b := range fn.Blocks {
 			for _, in := range b.Instrs {
+				if mc, ok := in.(*ssa.MakeClosure); ok {
+					if cf, isFn := mc.Fn.(*ssa.Function); isFn {
+						for i, bnd := range mc.Bindings {
+							if al, isAl := bnd.(*ssa.Alloc); isAl && i < len(cf.FreeVars) {
+								if et := al.Type().Underlying().(*types.Pointer).Elem(); isInteger(et) && !isUnsigned(et) {
+									inv.cells[al] = true
+									inv.cellOf[cf.FreeVars[i]] = al
+								}
+							}
+						}
+					}
+				}
+			}
+		}
+	}
+	for _, fn := range fns {
+		for _, b := range fn.Blocks {
+			for _, in := range b.Instrs {
 				if st, ok := in.(*ssa.Store); ok {
+					switch ad := st.Addr.(type) {
+					case *ssa.Alloc:
+						if inv.cells[ad] {
+							cellStores = append(cellStores, cellStore{st, ad})
+						}
+					case *ssa.FreeVar:
+						if c := inv.cellOf[ad]; c != nil {
+							cellStores = append(cellStores, cellStore{st, c})
+						}
+					}
 					if fa, ok := st.Addr.(*ssa.FieldAddr); ok && isInteger(st.Val.Type()) && !isUnsigned(st.Val.Type()) {
 						id := fieldID{derefTypeString(fa.X.Type()), fa.Field}
 						if strings.HasPrefix(id.typ, modPath) {
@@ -1421,6 +1462,16 @@ func (m *Model) NonnegInv() *nonnegInv {
 			a := ar(s.st.Parent())
 			if !a.ProveValLE(a.lin(s.st.Val).scale(-1), 0, pointOf(s.st)) {
 				delete(inv.fields, s.id)
+				changed = true
+			}
+		}
+		for _, s := range cellStores {
+			if !inv.cells[s.cell] {
+				continue
+			}
+			a := ar(s.st.Parent())
+			if !a.ProveValLE(a.lin(s.st.Val).scale(-1), 0, pointOf(s.st)) {
+				delete(inv.cells, s.cell)
 				changed = true
 			}
 		}
